@@ -6,6 +6,8 @@ import (
 	"net"
 	"strings"
 	"sync"
+
+	"go.minekube.com/gate/pkg/internal/verifhook"
 )
 
 // Quota implements a simple IP-based rate limiter.
@@ -27,6 +29,7 @@ func (q *Quota) Blocked(ip string) bool {
 		if v, ok := q.cache.Get(key); ok {
 			limiter = v.(*rate.Limiter)
 		} else {
+			verifhook.Point("quota.miss")
 			limiter = rate.NewLimiter(rate.Limit(q.eps), q.burst)
 			q.cache.Add(key, limiter)
 		}
